@@ -36,6 +36,7 @@ import (
 	"strconv"
 	"strings"
 	"time"
+	"unicode/utf16"
 	"unicode/utf8"
 )
 
@@ -339,7 +340,8 @@ func filterEscapejs(in *Value, param *Value) (*Value, *Error) {
 	idx := 0
 	for idx < len(sin) {
 		c, size := utf8.DecodeRuneInString(sin[idx:])
-		if c == utf8.RuneError {
+		if c == utf8.RuneError && size <= 1 {
+			// invalid UTF-8 (a literal U+FFFD in the input decodes with size 3 and is escaped like any other character)
 			idx += size
 			continue
 		}
@@ -370,6 +372,10 @@ func filterEscapejs(in *Value, param *Value) (*Value, *Error) {
 
 		if (c >= 'a' && c <= 'z') || (c >= 'A' && c <= 'Z') || c == ' ' || c == '/' {
 			b.WriteRune(c)
+		} else if c > 0xFFFF {
+			// outside the BMP: a surrogate pair, which is what \uXXXX can express
+			r1, r2 := utf16.EncodeRune(c)
+			b.WriteString(fmt.Sprintf(`\u%04X\u%04X`, r1, r2))
 		} else {
 			b.WriteString(fmt.Sprintf(`\u%04X`, c))
 		}
